@@ -1,115 +1,179 @@
-(* Tak/Alloc.v (draft): tak/alloc.go + analyze() + Clone/Move/MovePreallocated as operations on a store of objects.
-   Height and Stacks are always re-pointed at the object's own arrays (alloc, copyPosition), so they are stored by value;
-   the two group slices are slice HEADERS: (object whose Groups array they point into, offset, length).
-   Assumes no more than 2*size groups in total, i.e. append never reallocates (the generator respects this). *)
+(* Tak/Alloc.v: ownership model of tak/alloc.go + analyze() + New/Alloc/Clone/Move/MovePreallocated.
+
+   Go objects are explicit.  A store holds
+     - objects (the positionN structs): the Position value and the two slice HEADERS of Position.analysis
+       (Height and Stacks are re-pointed at the object's own arrays by alloc and kept by copyPosition, and their
+        contents are copied, so they are part of the value `o_pos`);
+     - a heap of uint64 arrays: array 0 is the empty array that nil slices point at, every object owns one array
+       of 2*size words (positionN.alloc.Groups), `append` beyond the capacity allocates a further array.
+   A slice header is (array id, offset, length); its capacity is (length of the array - offset), which is what
+   Go has for every header this code creates (`Groups[:0]`, `g[:0]`, `alloc[len:len:cap]`, results of append).
+
+   Transcribed: alloc, copyPosition, analyze (FloodGroups appending behind WhiteGroups[:0], the black groups behind
+   the white ones through alloc[len:len:cap]), New, Alloc, Clone (repaired: alloc + analyze; `fixed_clone = false`
+   is the pinned one), Move = MovePreallocated(m, nil), MovePreallocated into a caller-supplied object, failed moves
+   (the object written so far is left as it is).
+
+   No proofs here (AllocFacts*.v). *)
 From Coq Require Import NArith ZArith List Bool Lia.
-Require Import Board Move GameOver Tps.
+Require Import Board Move GameOver.
 Import ListNotations.
 
-Record sref := { r_owner : nat; r_off : nat; r_len : nat }.
-Record obj := { o_pos : position; o_garr : list N; o_wg : sref; o_bg : sref }.
-Definition store := list obj.
+Record sref := { r_arr : nat; r_off : nat; r_len : nat }.
+Record obj := { o_pos : position; o_own : nat (* id of its Groups array *); o_wg : sref; o_bg : sref }.
+Record store := { s_objs : list obj; s_arrs : list (list N) }.
 
-Section A.
-Variable basis : list N.
-Variable fixed_clone : bool.                 (* false = the pinned Clone (alloc only); true = alloc followed by analyze *)
+Definition nil_ref : sref := {| r_arr := 0; r_off := 0; r_len := 0 |}.
+Definition empty_store : store := {| s_objs := []; s_arrs := [[]] |}.
 
-Definition amv := move_prealloc (hash_sq basis) false.
-Definition garr_len (p : position) : nat := 2 * N.to_nat (size p).
+(* ---- Go runtime: capacity chosen by append for 8-byte elements (runtime.growslice + size classes, go1.23).
+        Only the L2 comparison depends on it; no theorem does. ---- *)
+Definition size_classes_words : list nat :=
+  [1; 2; 3; 4; 6; 8; 10; 12; 14; 16; 18; 20; 22; 24; 26; 28; 30; 32; 36; 40; 44; 48; 52; 56; 60; 64; 72; 80; 88; 96; 112; 128]%nat.
+Fixpoint roundup (classes : list nat) (n : nat) : nat :=
+  match classes with [] => n | c :: r => if (n <=? c)%nat then c else roundup r n end.
+Definition growcap (oldcap newlen : nat) : nat :=
+  let dbl := (oldcap + oldcap)%nat in
+  roundup size_classes_words (if (dbl <? newlen)%nat then newlen else dbl).
 
-Definition read_ref (st : store) (r : sref) : list N :=
-  match nth_error st (r_owner r) with
-  | Some o => firstn (r_len r) (skipn (r_off r) (o_garr o))
-  | None => []
+(* ---- slices ---- *)
+Definition get_arr (arrs : list (list N)) (a : nat) : list N := nth a arrs [].
+Definition read_ref (arrs : list (list N)) (r : sref) : list N :=
+  firstn (r_len r) (skipn (r_off r) (get_arr arrs (r_arr r))).
+
+Fixpoint set_nth {A} (l : list A) (i : nat) (v : A) : list A :=
+  match l, i with [], _ => [] | _ :: t, O => v :: t | h :: t, S j => h :: set_nth t j v end.
+
+(* append(s, v) *)
+Definition append1 (arrs : list (list N)) (r : sref) (v : N) : list (list N) * sref :=
+  let a := get_arr arrs (r_arr r) in
+  if (r_off r + r_len r <? length a)%nat
+  then (set_nth arrs (r_arr r) (set_nth a (r_off r + r_len r) v),
+        {| r_arr := r_arr r; r_off := r_off r; r_len := S (r_len r) |})
+  else let old := read_ref arrs r in
+       let c := growcap (r_len r) (S (r_len r)) in
+       (arrs ++ [old ++ v :: repeat 0%N (c - S (r_len r))],
+        {| r_arr := length arrs; r_off := 0; r_len := S (r_len r) |}).
+
+Fixpoint append_all (arrs : list (list N)) (r : sref) (vs : list N) : list (list N) * sref :=
+  match vs with
+  | [] => (arrs, r)
+  | v :: t => let '(arrs1, r1) := append1 arrs r v in append_all arrs1 r1 t
   end.
 
-Fixpoint write_at (arr : list N) (off : nat) (vals : list N) : list N :=
-  match off, arr with
-  | O, _ => vals ++ skipn (length vals) arr
-  | S k, a :: r => a :: write_at r k vals
-  | S k, [] => []
-  end.
+(* FloodGroups on a road bitboard; running out of the fuel of 65 is impossible for boards inside the mask
+   (theorem C02_groups_spec) and yields no groups here *)
+Definition groups_total (c : consts) (bits : N) : list N :=
+  match groups c bits with Some g => g | None => [] end.
+Definition analyze_total (p : position) : list N * list N :=
+  let c := precompute (size p) in
+  (groups_total c (N.ldiff (White p) (Standing p)), groups_total c (N.ldiff (Black p) (Standing p))).
 
-Fixpoint set_obj (st : store) (i : nat) (o : obj) : store :=
-  match st, i with [], _ => [] | _ :: t, O => o :: t | h :: t, S j => h :: set_obj t j o end.
+Definition set_obj (objs : list obj) (i : nat) (o : obj) : list obj := set_nth objs i o.
 
-(* analyze() on object i: white groups are appended to WhiteGroups[:0], black groups right behind them in the same array *)
+(* p.analyze() on object i *)
 Definition analyze_obj (st : store) (i : nat) : store :=
-  match nth_error st i with
+  match nth_error (s_objs st) i with
   | None => st
   | Some o =>
-    match GameOver.analyze (o_pos o) with
-    | None => st
-    | Some (wg, bg) =>
-      let owner := r_owner (o_wg o) in let off := r_off (o_wg o) in
-      (* the array written is the one WhiteGroups points into *)
-      let st := match nth_error st owner with
-                | Some oo => set_obj st owner {| o_pos := o_pos oo; o_garr := write_at (o_garr oo) off (wg ++ bg); o_wg := o_wg oo; o_bg := o_bg oo |}
-                | None => st end in
-      match nth_error st i with
-      | Some o' => set_obj st i {| o_pos := o_pos o'; o_garr := o_garr o';
-                                   o_wg := {| r_owner := owner; r_off := off; r_len := length wg |};
-                                   o_bg := {| r_owner := owner; r_off := off + length wg; r_len := length bg |} |}
-      | None => st end
-    end
+    let '(wgs, bgs) := analyze_total (o_pos o) in
+    let w0 := {| r_arr := r_arr (o_wg o); r_off := r_off (o_wg o); r_len := 0 |} in          (* WhiteGroups[:0] *)
+    let '(arrs1, w) := append_all (s_arrs st) w0 wgs in
+    let b0 := {| r_arr := r_arr w; r_off := (r_off w + r_len w)%nat; r_len := 0 |} in          (* alloc[len:len:cap] *)
+    let '(arrs2, b) := append_all arrs1 b0 bgs in
+    {| s_objs := set_obj (s_objs st) i {| o_pos := o_pos o; o_own := o_own o; o_wg := w; o_bg := b |};
+       s_arrs := arrs2 |}
   end.
 
-(* alloc(tpl): a new object; BlackGroups keeps pointing wherever the template's did *)
-Definition alloc_obj (st : store) (tpl : obj) : store * nat :=
-  let id := length st in
-  (st ++ [{| o_pos := o_pos tpl; o_garr := repeat 0%N (garr_len (o_pos tpl)); o_wg := {| r_owner := id; r_off := 0; r_len := 0 |}; o_bg := o_bg tpl |}], id).
+Definition garr_len (p : position) : nat := (2 * N.to_nat (size p))%nat.
+
+(* alloc(tpl): a new object with its own arrays; WhiteGroups = Groups[:0]; BlackGroups keeps pointing wherever the
+   template's did (the struct copy `Position: *tpl`) *)
+Definition alloc_obj (st : store) (p : position) (bg : sref) : store * nat :=
+  let id := length (s_objs st) in
+  let own := length (s_arrs st) in
+  ({| s_objs := s_objs st ++ [{| o_pos := p; o_own := own; o_wg := {| r_arr := own; r_off := 0; r_len := 0 |}; o_bg := bg |}];
+      s_arrs := s_arrs st ++ [repeat 0%N (garr_len p)] |}, id).
+
+Definition set_pos (st : store) (i : nat) (q : position) : store :=
+  match nth_error (s_objs st) i with
+  | Some o => {| s_objs := set_obj (s_objs st) i {| o_pos := q; o_own := o_own o; o_wg := o_wg o; o_bg := o_bg o |}; s_arrs := s_arrs st |}
+  | None => st
+  end.
+
+(* tak.New(cfg) after the defaults are filled in; tak.Alloc(size) *)
+Definition new_pos (sz : N) (bwt : bool) (stones caps : N) : position :=
+  {| size := sz; black_wins_ties := bwt; whiteStones := stones; whiteCaps := caps; blackStones := stones; blackCaps := caps;
+     move := 0; White := 0; Black := 0; Standing := 0; Caps := 0;
+     Height := repeat 0%N (N.to_nat (sz * sz)); Stacks := repeat 0%N (N.to_nat (sz * sz)); hash := fnvBasis |}.
+Definition zero_pos (sz : N) : position :=
+  {| size := sz; black_wins_ties := false; whiteStones := 0; whiteCaps := 0; blackStones := 0; blackCaps := 0;
+     move := 0; White := 0; Black := 0; Standing := 0; Caps := 0;
+     Height := repeat 0%N (N.to_nat (sz * sz)); Stacks := repeat 0%N (N.to_nat (sz * sz)); hash := 0 |}.
 
 Inductive opr :=
-| ONew (size : N)
-| OMove (h : nat) (m : rmove)
-| OMovePre (h : nat) (m : rmove) (buf : nat)
+| OInit (p : position)                          (* a position built elsewhere (FromSquares, a playout): alloc + fill + analyze *)
+| ONew (sz : N) (bwt : bool) (stones caps : N)  (* tak.New: alloc of a template with nil slices; never analysed *)
+| OAlloc (sz : N)                               (* tak.Alloc: an object that is only ever a buffer *)
+| OMove (h : nat) (m : rmove)                   (* h.Move(m) *)
+| OMovePre (h : nat) (m : rmove) (buf : nat)    (* h.MovePreallocated(m, buf) *)
 | OClone (h : nat).
 
-Definition new_obj (sz : N) : obj :=
-  let p := Tps.from_squares basis sz (repeat (repeat [] (N.to_nat sz)) (N.to_nat sz)) 0 in
-  {| o_pos := p; o_garr := repeat 0%N (garr_len p); o_wg := {| r_owner := 0; r_off := 0; r_len := 0 |}; o_bg := {| r_owner := 0; r_off := 0; r_len := 0 |} |}.
+Section A.
+Variable hsq : N -> N -> N -> N.             (* hash64(hash8(basis[i], height), stack) *)
+Variable fixed_clone : bool.                 (* false = the pinned Clone (alloc only); true = alloc followed by analyze *)
 
-(* result: the new store and the handle produced (None = the call returned an error) *)
+(* the value part of MovePreallocated: the repaired function (origin bounds check); Pass succeeds and only bumps the ply *)
+Definition amv (p : position) (m : rmove) : res position :=
+  if (mT m =? 1)%N
+  then Ok {| size := size p; black_wins_ties := black_wins_ties p; whiteStones := whiteStones p; whiteCaps := whiteCaps p;
+             blackStones := blackStones p; blackCaps := blackCaps p; move := (move p + 1)%Z;
+             White := White p; Black := Black p; Standing := Standing p; Caps := Caps p;
+             Height := Height p; Stacks := Stacks p; hash := hash p |}
+  else move_prealloc hsq true p m.
+
+(* result: the new store and the handle produced (None = the call returned an error, or the operands do not exist) *)
 Definition step (st : store) (o : opr) : store * option nat :=
   match o with
-  | ONew sz => let '(st, id) := alloc_obj st (new_obj sz) in
-               (* New's template has nil slices *)
-               (match nth_error st id with
-                | Some ob => (set_obj st id {| o_pos := o_pos ob; o_garr := o_garr ob; o_wg := o_wg ob; o_bg := {| r_owner := id; r_off := 0; r_len := 0 |} |}, Some id)
-                | None => (st, None) end)
+  | OInit p => let '(st1, id) := alloc_obj st p nil_ref in (analyze_obj st1 id, Some id)
+  | ONew sz bwt stones caps => let '(st1, id) := alloc_obj st (new_pos sz bwt stones caps) nil_ref in (st1, Some id)
+  | OAlloc sz => let '(st1, id) := alloc_obj st (zero_pos sz) nil_ref in (st1, Some id)
   | OMove h m =>
-    match nth_error st h with
+    match nth_error (s_objs st) h with
     | None => (st, None)
     | Some src =>
-      let '(st1, id) := alloc_obj st src in
+      let '(st1, id) := alloc_obj st (o_pos src) (o_bg src) in
       match amv (o_pos src) m with
-      | Ok q => (match nth_error st1 id with
-                 | Some ob => (analyze_obj (set_obj st1 id {| o_pos := q; o_garr := o_garr ob; o_wg := o_wg ob; o_bg := o_bg ob |}) id, Some id)
-                 | None => (st1, None) end)
-      | _ => (st1, None)                 (* the allocated object is garbage *)
+      | Ok q => (analyze_obj (set_pos st1 id q) id, Some id)
+      | _ => (st1, None)                 (* the allocated object is garbage, nobody holds it *)
       end
     end
   | OMovePre h m buf =>
-    match nth_error st h, nth_error st buf with
+    match nth_error (s_objs st) h, nth_error (s_objs st) buf with
     | Some src, Some b =>
-      (* copyPosition: everything from src except that WhiteGroups keeps buf's array (len 0) *)
-      let b1 := {| o_pos := o_pos src; o_garr := o_garr b; o_wg := {| r_owner := r_owner (o_wg b); r_off := r_off (o_wg b); r_len := 0 |}; o_bg := o_bg src |} in
-      let st1 := set_obj st buf b1 in
+      (* copyPosition: everything from src, except that Height/Stacks/WhiteGroups keep buf's storage; WhiteGroups = g[:0] *)
+      let b1 := {| o_pos := o_pos src; o_own := o_own b;
+                   o_wg := {| r_arr := r_arr (o_wg b); r_off := r_off (o_wg b); r_len := 0 |}; o_bg := o_bg src |} in
+      let st1 := {| s_objs := set_obj (s_objs st) buf b1; s_arrs := s_arrs st |} in
       match amv (o_pos src) m with
-      | Ok q => (analyze_obj (set_obj st1 buf {| o_pos := q; o_garr := o_garr b1; o_wg := o_wg b1; o_bg := o_bg b1 |}) buf, Some buf)
+      | Ok q => (analyze_obj (set_pos st1 buf q) buf, Some buf)
       | _ => (st1, None)
       end
     | _, _ => (st, None)
     end
   | OClone h =>
-    match nth_error st h with
+    match nth_error (s_objs st) h with
     | None => (st, None)
-    | Some src => let '(st1, id) := alloc_obj st src in
+    | Some src => let '(st1, id) := alloc_obj st (o_pos src) (o_bg src) in
                   (if fixed_clone then analyze_obj st1 id else st1, Some id)
     end
   end.
 
-(* GameOver() as the code computes it: roads from the group slices it currently sees *)
+Fixpoint run_from (st : store) (ops : list opr) : store :=
+  match ops with [] => st | o :: t => run_from (fst (step st o)) t end.
+Definition run (ops : list opr) : store := run_from empty_store ops.
+
+(* GameOver() as the code computes it: roads from the group slices the object currently sees *)
 Definition game_over_groups (p : position) (wg bg : list N) : bool * gcolor :=
   match has_road p wg bg with
   | Some c => (true, c)
@@ -119,11 +183,58 @@ Definition game_over_groups (p : position) (wg bg : list N) : bool * gcolor :=
     then (false, GNone) else (true, flats_winner p)
   end.
 
-(* what a caller can see of a handle *)
-Definition observe (st : store) (h : nat) : position * list N * list N * (bool * gcolor) :=
-  match nth_error st h with
-  | Some o => let wg := read_ref st (o_wg o) in let bg := read_ref st (o_bg o) in
-              (o_pos o, wg, bg, game_over_groups (o_pos o) wg bg)
-  | None => (o_pos (new_obj 3), [], [], (false, GNone))
+(* what a caller can see of a handle: the value (At, reserves, ply, Hash and the legal moves are functions of it),
+   the two group slices through Analysis(), and GameOver() *)
+Definition observation := (position * list N * list N * (bool * gcolor))%type.
+Definition observe (st : store) (h : nat) : option observation :=
+  match nth_error (s_objs st) h with
+  | Some o => let wg := read_ref (s_arrs st) (o_wg o) in let bg := read_ref (s_arrs st) (o_bg o) in
+              Some (o_pos o, wg, bg, game_over_groups (o_pos o) wg bg)
+  | None => None
   end.
+
+(* ---- the pure value model: positions are values ---- *)
+Definition observe_pure (v : position) : observation :=
+  let '(wg, bg) := analyze_total v in (v, wg, bg, game_over_groups v wg bg).
+
+(* per object id: Some v = a live handle whose value is v; None = dead (a buffer, garbage of a failed move) *)
+Definition pstate := list (option position).
+Definition pval (ps : pstate) (h : nat) : option position := match nth_error ps h with Some (Some v) => Some v | _ => None end.
+
+Definition pure_step (ps : pstate) (o : opr) : pstate :=
+  match o with
+  | OInit p => ps ++ [Some p]
+  | ONew sz bwt stones caps => ps ++ [Some (new_pos sz bwt stones caps)]
+  | OAlloc _ => ps ++ [None]
+  | OMove h m =>
+    match pval ps h with
+    | Some v => ps ++ [match amv v m with Ok q => Some q | _ => None end]
+    | None => ps
+    end
+  | OMovePre h m buf =>
+    match pval ps h with
+    | Some v => set_nth ps buf (match amv v m with Ok q => Some q | _ => None end)
+    | None => ps
+    end
+  | OClone h =>
+    match pval ps h with
+    | Some v => ps ++ [Some v]
+    | None => ps
+    end
+  end.
+Fixpoint pure_run_from (ps : pstate) (ops : list opr) : pstate :=
+  match ops with [] => ps | o :: t => pure_run_from (pure_step ps o) t end.
+Definition pure_run (ops : list opr) : pstate := pure_run_from [] ops.
+
+(* an operation is admissible when its source is a live handle and its buffer is an existing object other than
+   the source (a buffer may be live, dead, or the source's own parent) *)
+Definition op_ok (ps : pstate) (o : opr) : bool :=
+  match o with
+  | OInit _ | ONew _ _ _ _ | OAlloc _ => true
+  | OMove h _ | OClone h => match pval ps h with Some _ => true | None => false end
+  | OMovePre h _ buf => match pval ps h with Some _ => negb (Nat.eqb h buf) && (buf <? length ps)%nat | None => false end
+  end.
+Fixpoint ops_ok_from (ps : pstate) (ops : list opr) : bool :=
+  match ops with [] => true | o :: t => op_ok ps o && ops_ok_from (pure_step ps o) t end.
+Definition ops_ok (ops : list opr) : bool := ops_ok_from [] ops.
 End A.
